@@ -140,6 +140,9 @@ def main():
     for fn in getattr(mod, 'REACH', []):
         if reach_all.get(fn, 0) <= 0:
             inconclusive.append(f'anchored function "{fn}" was never entered')
+    if merged['counters'].get('call_timeouts'):
+        inconclusive.append(f"{merged['counters']['call_timeouts']} library call(s) hit the {core.CALL_TIMEOUT_S}s watchdog "
+                            f"(first: {json.dumps(merged['timeouts'][0]['sig']) if merged.get('timeouts') else '?'})")
     if merged['evaluations'] == 0:
         inconclusive.append('no oracle evaluation happened')
     rc = core.finish(prop, mod, args.tier, args.seed, merged, time.time() - t0, inconclusive,
